@@ -373,6 +373,7 @@ func cmdCheck(args []string) int {
 			}
 			if len(u.HavocAlls) > 0 && u.unit != nil {
 				seenD := map[*stableDecl]bool{}
+				nKept := 0
 				for _, fam := range sortedKeys(w.stableFams) {
 					d := w.stableFams[fam]
 					if seenD[d] {
@@ -380,11 +381,12 @@ func cmdCheck(args []string) int {
 					}
 					seenD[d] = true
 					if w.stableIn(fam, u.unit.fn) == nil {
-						fmt.Printf("    stable %s NOT usable here: a reachable function stores to it: %s\n", d.text, w.whyUnstable(d, u.unit.fn))
+						fmt.Printf("    stable %s NOT usable at unit level (per-callee havocs may still keep it): a reachable function stores to it: %s\n", d.text, w.whyUnstable(d, u.unit.fn))
 					} else {
-						fmt.Printf("    stable %s kept across the havocs\n", d.text)
+						nKept++
 					}
 				}
+				fmt.Printf("    stable declarations kept across every havoc of this unit: %d\n", nKept)
 			}
 		}
 	}
